@@ -14,6 +14,7 @@
 #undef mutex
 #undef condition_variable
 #undef thread
+#undef atomic
 
 namespace simsched {
 
@@ -55,6 +56,7 @@ struct Session {
   size_t replay_pos = 0;
   int spurious_left = 0;
   std::unordered_map<const void *, int> mtx_id, cv_id;
+  std::unordered_map<const void *, std::vector<uint32_t>> atom_vc;   // synchronisation carried by std::atomic objects
   std::vector<std::vector<uint32_t>> mtx_vc;
   std::vector<uint64_t> obj_hash;       // sync signature per object (mutexes then buffers)
   // monitor
@@ -78,7 +80,7 @@ const char *ev_name(int k) {
   static const char *n[] = {"?", "lock_req", "lock_acq", "unlock", "cv_wait", "cv_wake", "notify_one", "notify_all",
                             "thread_create", "thread_start", "thread_exit", "join_req", "join_done",
                             "look", "relook", "load_begin", "load_end", "export_begin", "export_end", "group",
-                            "spy_enter", "spy_exit", "spurious", "io_read", "io_write", "io_seek", "trylock", "timeout"};
+                            "spy_enter", "spy_exit", "spurious", "io_read", "io_write", "io_seek", "trylock", "timeout", "atomic"};
   return (k > 0 && k < EV_KIND_MAX) ? n[k] : "?";
 }
 const char *strategy_name(int s) {
@@ -553,7 +555,7 @@ void session_begin(const SchedConfig &cfg) {
   S.res = SchedResult();
   S.replay_pos = 0;
   S.spurious_left = cfg.max_spurious;
-  S.mtx_id.clear(); S.cv_id.clear(); S.mtx_vc.clear(); S.obj_hash.clear();
+  S.mtx_id.clear(); S.cv_id.clear(); S.mtx_vc.clear(); S.obj_hash.clear(); S.atom_vc.clear();
   next_mtx_id = 0; next_cv_id = 0;
   S.buf_base = S.ctrl_base = nullptr; S.nbuf = 0; S.bm.clear(); S.io_tid = -1;
   S.last_kind = 0;
@@ -622,6 +624,28 @@ static void trampoline(ThreadRec *r) {
 
 namespace std {
 using namespace simsched;
+
+// std::atomic operations: scheduling point before, vector-clock transfer after (treated as acquire + release)
+void sim_atomic_event(const void *addr, int kind) {
+  if (!S.active) return;
+  auto it = S.atom_vc.find(addr);
+  int id = it == S.atom_vc.end() ? (int)S.atom_vc.size() : (int)std::distance(S.atom_vc.begin(), it);
+  (void)id;
+  record(EV_ATOMIC, kind, 0);
+  close_interval(S.cur);
+  yield_point();
+}
+void sim_atomic_after(const void *addr, int kind) {
+  if (!S.active) return;
+  ThreadRec *me = S.cur;
+  std::vector<uint32_t> &vc = S.atom_vc[addr];
+  if (vc.empty()) vc.assign(MAXT, 0);
+  if (kind == 0 || kind == 2) vc_join(me->vc, vc.data());                 // acquire
+  if (kind == 1 || kind == 2) {                                           // release (joins: every earlier release stays visible)
+    for (int i = 0; i < MAXT; i++) if (me->vc[i] > vc[i]) vc[i] = me->vc[i];
+    me->vc[me->id]++;
+  }
+}
 
 sim_mutex::sim_mutex() noexcept {}
 sim_mutex::~sim_mutex() {
